@@ -27,7 +27,7 @@
 (* deviation; each deviation must make TLC produce a counterexample        *)
 (* (non-vacuity, and regression scenarios for the crate).                  *)
 (***************************************************************************)
-EXTENDS Naturals, Integers, Sequences, FiniteSets, TLC
+EXTENDS Naturals, Integers, Sequences, FiniteSets, TLC, StoreOrder
 
 CONSTANTS MaxLen,      \* blocks ever appended
           MaxCalls,    \* API calls per behaviour
@@ -173,7 +173,7 @@ AppendBegin(n) ==
          after == [abs EXCEPT !.len = @ + n, !.held = @ \cup (abs.len..(abs.len + n - 1)),
                               !.cont = [i \in Blocks |-> IF i >= abs.len /\ i < abs.len + n
                                                          THEN vs[i - abs.len + 1] ELSE @[i]]] IN
-     /\ cur' = [op |-> "append", n |-> n, vs |-> vs, mro |-> FALSE]
+     /\ cur' = [op |-> "append", n |-> n, vs |-> vs, mro |-> FALSE, jc |-> <<>>]
      /\ pend' = [some |-> TRUE, b |-> abs, a |-> after]
      /\ nextv' = nextv + n
   /\ pc' = IF Mut = "entry_before_data" THEN "a_entry" ELSE "a_data"
@@ -185,7 +185,8 @@ WData ==   \* W data @ byte_length
   /\ dataFile' = [i \in Blocks |-> IF i >= mem.tlen /\ i < mem.tlen + cur.n
                                    THEN cur.vs[i - mem.tlen + 1] ELSE dataFile[i]]
   /\ pc' = IF Mut = "entry_before_data" THEN "a_commit" ELSE "a_entry"
-  /\ UNCHANGED <<slot, cells, bfFile, treeFile, mem, cur, abs, pend, ncalls, ncrash, ntorn, nextv, nextid, hist>>
+  /\ UNCHANGED <<slot, cells, bfFile, treeFile, mem, abs, pend, ncalls, ncrash, ntorn, nextv, nextid, hist>>
+  /\ cur' = [cur EXCEPT !.jc = Append(@, "a_data")]
 
 AppendEntry == [id |-> nextid, bit |-> CurBit(mem.bits), kind |-> "append", from |-> mem.tlen,
                 n |-> cur.n, vs |-> cur.vs, s |-> 0, e |-> 0]
@@ -196,7 +197,8 @@ WEntryAppend ==   \* W oplog entry @ 8192 + cursor : the commit point
   /\ mem' = [mem EXCEPT !.cursor = @ + Sz(AppendEntry)]
   /\ nextid' = nextid + 1
   /\ pc' = IF Mut = "entry_before_data" THEN "a_data" ELSE "a_commit"
-  /\ UNCHANGED <<slot, bfFile, treeFile, dataFile, cur, abs, pend, ncalls, ncrash, ntorn, nextv, hist>>
+  /\ UNCHANGED <<slot, bfFile, treeFile, dataFile, abs, pend, ncalls, ncrash, ntorn, nextv, hist>>
+  /\ cur' = [cur EXCEPT !.jc = Append(@, "entry")]
 
 CommitAppend ==   \* in-memory bitfield, contiguous length, tree (no storage operation)
   /\ pc = "a_commit"
@@ -217,7 +219,7 @@ CommitAppend ==   \* in-memory bitfield, contiguous length, tree (no storage ope
 \* ---- clear(s, e) ----
 ClearBegin(s, e) ==
   /\ Idle /\ s < e /\ s < mem.tlen /\ e <= MaxLen
-  /\ cur' = [op |-> "clear", s |-> s, e |-> e, mro |-> FALSE]
+  /\ cur' = [op |-> "clear", s |-> s, e |-> e, mro |-> FALSE, jc |-> <<>>]
   /\ pend' = [some |-> TRUE, b |-> abs, a |-> [abs EXCEPT !.held = @ \ (s..(e - 1))]]
   /\ pc' = "c_entry" /\ ncalls' = ncalls + 1 /\ Ghost(<<"clear", s, e>>)
   /\ UNCHANGED <<pvars, mem, abs, ncrash, ntorn, nextv, nextid>>
@@ -233,7 +235,8 @@ WEntryClear ==
                         !.dirty = @ \cup {i \div PageBits : i \in (cur.s..(cur.e - 1)) \cap mem.held},
                         !.contig = IF cur.s < @ THEN cur.s ELSE @]
   /\ nextid' = nextid + 1 /\ pc' = "c_del"
-  /\ UNCHANGED <<slot, bfFile, treeFile, dataFile, cur, abs, pend, ncalls, ncrash, ntorn, nextv, hist>>
+  /\ UNCHANGED <<slot, bfFile, treeFile, dataFile, abs, pend, ncalls, ncrash, ntorn, nextv, hist>>
+  /\ cur' = [cur EXCEPT !.jc = Append(@, "entry")]
 
 \* the widest hole around [s, e): back to the previous held block, forward to the next one
 HoleLo == LET below == {i \in mem.held : i < cur.s} IN
@@ -248,12 +251,13 @@ DData ==   \* D data hole
      THEN IF mem.skip = 0 THEN pc' = FlushStart /\ mem' = [mem EXCEPT !.skip = 3]
           ELSE pc' = "ret" /\ mem' = [mem EXCEPT !.skip = @ - 1]
      ELSE pc' \in {FlushStart, "ret"} /\ UNCHANGED mem
-  /\ UNCHANGED <<slot, cells, bfFile, treeFile, cur, abs, pend, ncalls, ncrash, ntorn, nextv, nextid, hist>>
+  /\ UNCHANGED <<slot, cells, bfFile, treeFile, abs, pend, ncalls, ncrash, ntorn, nextv, nextid, hist>>
+  /\ cur' = [cur EXCEPT !.jc = Append(@, "c_del")]
 
 \* ---- make_read_only ----
 MroBegin ==
   /\ Idle /\ mem.sec
-  /\ cur' = [op |-> "mro", mro |-> TRUE]
+  /\ cur' = [op |-> "mro", mro |-> TRUE, jc |-> <<>>]
   /\ pend' = [some |-> TRUE, b |-> abs, a |-> [abs EXCEPT !.w = FALSE]]
   /\ mem' = [mem EXCEPT !.sec = FALSE]
   /\ pc' = FlushStart /\ ncalls' = ncalls + 1 /\ Ghost(<<"mro">>)
@@ -264,7 +268,8 @@ WPage(g) ==   \* W bitfield page g
   /\ pc = "f_pages" /\ g \in mem.dirty
   /\ bfFile' = (bfFile \ PageIdx(g)) \cup (mem.held \cap PageIdx(g))
   /\ mem' = [mem EXCEPT !.dirty = @ \ {g}]
-  /\ UNCHANGED <<slot, cells, treeFile, dataFile, pc, cur, abs, pend, ncalls, ncrash, ntorn, nextv, nextid, hist>>
+  /\ UNCHANGED <<slot, cells, treeFile, dataFile, pc, abs, pend, ncalls, ncrash, ntorn, nextv, nextid, hist>>
+  /\ cur' = [cur EXCEPT !.jc = Append(@, "f_pages")]
 
 PagesDone ==
   /\ pc = "f_pages" /\ mem.dirty = {}
@@ -275,7 +280,8 @@ WNode(i) ==   \* W tree nodes completed by block i (any order: the code's order 
   /\ pc = "f_nodes" /\ i \in mem.unfl
   /\ treeFile' = [treeFile EXCEPT ![i] = mem.nodes[i]]
   /\ mem' = [mem EXCEPT !.unfl = @ \ {i}]
-  /\ UNCHANGED <<slot, cells, bfFile, dataFile, pc, cur, abs, pend, ncalls, ncrash, ntorn, nextv, nextid, hist>>
+  /\ UNCHANGED <<slot, cells, bfFile, dataFile, pc, abs, pend, ncalls, ncrash, ntorn, nextv, nextid, hist>>
+  /\ cur' = [cur EXCEPT !.jc = Append(@, "f_nodes")]
 
 NodesDone ==
   /\ pc = "f_nodes" /\ mem.unfl = {}
@@ -290,7 +296,8 @@ WHeader(next) ==   \* W oplog header into the non-current slot; the current bit 
      /\ slot' = [slot EXCEPT ![s] = HdrRec(b)]
      /\ mem' = [mem EXCEPT !.bits = WithBit(mem.bits, s, b)]
   /\ pc' = next
-  /\ UNCHANGED <<cells, bfFile, treeFile, dataFile, cur, abs, pend, ncalls, ncrash, ntorn, nextv, nextid, hist>>
+  /\ UNCHANGED <<cells, bfFile, treeFile, dataFile, abs, pend, ncalls, ncrash, ntorn, nextv, nextid, hist>>
+  /\ cur' = [cur EXCEPT !.jc = Append(@, IF pc = "f_hdr" THEN "f_hdr" ELSE "f_hdr2")]
 
 WHeader1 == pc = "f_hdr" /\ WHeader(IF Mut = "hdr_before_pages" THEN "f_pages"
                                     ELSE IF cur.mro /\ Mut = "mro_no_mid_trunc" THEN "f_hdr2" ELSE "f_trunc")
@@ -300,7 +307,8 @@ TOplog(next) ==   \* T oplog 8192
   /\ cells' = <<>>
   /\ mem' = [mem EXCEPT !.cursor = 0]
   /\ pc' = next
-  /\ UNCHANGED <<slot, bfFile, treeFile, dataFile, cur, abs, pend, ncalls, ncrash, ntorn, nextv, nextid, hist>>
+  /\ UNCHANGED <<slot, bfFile, treeFile, dataFile, abs, pend, ncalls, ncrash, ntorn, nextv, nextid, hist>>
+  /\ cur' = [cur EXCEPT !.jc = Append(@, IF pc = "f_trunc" THEN "f_trunc" ELSE "f_trunc2")]
 
 TOplog1 == pc = "f_trunc" /\ TOplog(IF cur.mro /\ Mut # "mro_one_slot" THEN "f_hdr2" ELSE "ret")
 TOplog2 == pc = "f_trunc2" /\ TOplog("ret")
@@ -430,6 +438,9 @@ KeyHygiene ==
   (pc = "idle" /\ mem.alive /\ abs.sealed) =>
      /\ ~abs.w
      /\ \A s \in 1..2 : ~slot[s].sec
+
+\* the storage operations of every call stay inside the envelope of StoreOrder
+JournalInEnvelope == (pc = "ret" /\ Mut = "none") => CallOrderOK(cur.op, TRUE, cur.jc)
 
 TypeOK ==
   /\ pc \in {"idle", "closed", "ret", "a_data", "a_entry", "a_commit", "c_entry", "c_del",
